@@ -10,8 +10,12 @@ import (
 
 // ---- bounded type family for C11 (DESIGN.md section 6 C11) ----
 
+// vTag: a string type with a name of its own (kind string, but not the type string)
+type vTag string
+
 type vLeaf struct {
 	Name   string
+	Tag    vTag
 	Num    int64
 	Flag   bool
 	hidden string
@@ -36,7 +40,7 @@ type vTop struct {
 }
 
 func vMkLeafV(tag string) vLeaf {
-	return vLeaf{Name: verifStr(tag + "_name"), Num: int64(verifInt(tag + "_num")), Flag: verifBool(tag + "_flag"), hidden: "h"}
+	return vLeaf{Name: verifStr(tag + "_name"), Tag: vTag(verifStr(tag + "_tag")), Num: int64(verifInt(tag + "_num")), Flag: verifBool(tag + "_flag"), hidden: "h"}
 }
 
 func vMkLeaf(tag string) *vLeaf {
@@ -96,6 +100,9 @@ func vRefLeafV(l vLeaf, p []string, i int) ([]string, bool) {
 	}
 	if vSeg(p[i], "name", "Name") {
 		return vRefStr(l.Name, p, i+1)
+	}
+	if vSeg(p[i], "tag", "Tag") {
+		return vRefStr(string(l.Tag), p, i+1)
 	}
 	return nil, false // num, flag, hidden, unknown names, empty segment
 }
@@ -205,7 +212,7 @@ func vSegChoice(tag string, level int) string {
 	case 1:
 		return verifChoose(tag, "key", "in", "In", "items", "vals", "names", "Names", "nums", "any", "m", "name", "nosuch", "")
 	}
-	return verifChoose(tag, "name", "Name", "num", "flag", "hidden", "Hidden", "nosuch", "")
+	return verifChoose(tag, "name", "Name", "tag", "num", "flag", "hidden", "Hidden", "nosuch", "")
 }
 
 func vCompare(got []string, err error, want []string, ok bool) {
